@@ -202,6 +202,7 @@ def run(ctx: RuleContext, p: Program) -> None:
     from . import c12
     ctx.try_rule(c12.rule_str_boundary, p, c12.grammar(p), 'STR-BOUNDARY', 7 if ctx.tier == 'quick' else 9)
     ctx.try_rule(c12.rule_fmt_lang, p, c12.grammar(p), 'FMT-LANG')
+    ctx.try_rule(rule_fv_arg, p, 'FV-ARG')
     ctx.try_rule(grammar_rules.rule_lex_prio, p, 'LEX-PRIO')
     ctx.try_rule(grammar_rules.rule_term_domain, p, 'TERM-DOMAIN')
     ctx.not_decided += ['that the printed text of a constructed model parses (runtime / lexer)',
@@ -274,3 +275,67 @@ def rule_fv_path(ctx: RuleContext, p: Program, rid: str) -> None:
                 ctx.ok(rid, site, f'{len(params)} parameters read on every returning path')
     if n < 8:
         raise AnalysisError(f'FV-PATH: only {n} hand-written constructors found')
+
+
+# ====================================================================== FV-ARG (added after seeded round 6)
+def rule_fv_arg(ctx: RuleContext, p: Program, rid: str) -> None:
+    """in a from_value that forwards to from_children / the constructor, the part called k is built from the argument called k"""
+    import ast
+    from ..model import AnalysisError, norm, walk_no_nested
+    ctx.rule(rid, 'in every from_value (hand-written and generated), each keyword `k=<expr>` of the forwarding call (from_children / cls(...)) '
+                  'whose name is also a parameter of from_value takes its DATA from that parameter: the value part of <expr> (conditional tests '
+                  'set aside, single-assignment locals expanded) reads `k`.  A slot filled from another argument (trailing_comment built from '
+                  'leading_comment) constructs a model whose fields are not the arguments')
+    n = 0
+    for m in p.modules.values():
+        if '.models' not in m.name or '.internal' in m.name or m.name.endswith('_test'):
+            continue
+        for fn in p.functions_in(m):
+            if fn.kind != 'classmethod' or fn.name != 'from_value' or fn.cls is None:
+                continue
+            a = fn.node.args
+            params = {x.arg for x in [*a.posonlyargs, *a.args, *a.kwonlyargs][1:]}
+            assigns: dict[str, list[ast.AST]] = {}
+            for st in walk_no_nested(fn.node):
+                if isinstance(st, ast.Assign) and len(st.targets) == 1 and isinstance(st.targets[0], ast.Name):
+                    assigns.setdefault(st.targets[0].id, []).append(st.value)
+                elif isinstance(st, (ast.AugAssign, ast.AnnAssign, ast.NamedExpr)) and isinstance(st.target, ast.Name):
+                    assigns.setdefault(st.target.id, []).append(st.value if st.value is not None else st.target)
+                elif isinstance(st, (ast.For, ast.comprehension)):
+                    for t in ast.walk(st.target):
+                        if isinstance(t, ast.Name):
+                            assigns.setdefault(t.id, []).append(st.iter)
+
+            def data_names(e: ast.AST, depth: int = 0) -> set[str]:
+                """parameters the VALUE of e is computed from"""
+                if isinstance(e, ast.IfExp):
+                    return data_names(e.body, depth) | data_names(e.orelse, depth)
+                if isinstance(e, ast.BoolOp):
+                    return set().union(*[data_names(v, depth) for v in e.values])
+                out: set[str] = set()
+                for x in ast.walk(e):
+                    if isinstance(x, ast.Name) and isinstance(x.ctx, ast.Load):
+                        if x.id in params and x.id not in assigns:
+                            out.add(x.id)
+                        elif x.id in assigns and depth < 4:
+                            if x.id in params:
+                                out.add(x.id)
+                            for v in assigns[x.id]:
+                                out |= data_names(v, depth + 1)
+                return out
+
+            for call in walk_no_nested(fn.node):
+                if not (isinstance(call, ast.Call) and (norm(call.func) in ('cls.from_children', 'cls', f'{fn.cls.name}.from_children', fn.cls.name)
+                                                        or norm(call.func).endswith('.from_children') and norm(call.func).split('.')[0] in ('cls', 'super()'))):
+                    continue
+                for k in call.keywords:
+                    if k.arg is None or k.arg not in params:
+                        continue
+                    n += 1
+                    got = data_names(k.value)
+                    ctx.check(k.arg in got, rid, f'{m.name.split(".", 1)[1]}:{fn.qualname}', f'{k.arg}=',
+                              f'{fn.qualname} passes `{k.arg}={norm(k.value)[:90]}`: the value is built from {sorted(got) or "no argument"}, not from '
+                              f'the argument `{k.arg}` -- the constructed model\'s {k.arg} is not what the caller passed (and a None there raises)',
+                              f'{m.relpath}:{k.value.lineno}', note=f'{k.arg} <- {sorted(got)}')
+    if n < 60:
+        raise AnalysisError(f'FV-ARG: only {n} forwarded keywords found')
